@@ -21,6 +21,12 @@ def variant_text(text, sc, kind):
             return None
         k = S + (sc['col'] - 1) // 2
         return text[:k] + EXOTIC[(sc['L'] + sc['col']) % len(EXOTIC)] + text[k + 1:]
+    if kind == 'tab':
+        # a tab before the error on the same line is one character like any other
+        if sc['col'] < 3 or sc['atend']:
+            return None
+        k = S + (sc['col'] - 1) // 2
+        return text[:k] + '\t' + text[k + 1:]
     if kind == 'blanks':
         if not sc['last'] or sc['atend']:
             return None
@@ -34,6 +40,10 @@ def variant_text(text, sc, kind):
 
 
 def make_text(P, L, last):
+    return ''.join(make_chars(P, L, last))
+
+
+def make_chars(P, L, last):
     chars = []
     for _ in range(P):
         for _ in range(PREF):
@@ -45,7 +55,7 @@ def make_text(P, L, last):
         chars.append('\n')
         for _ in range(3):
             chars.append(ALPH[len(chars) % len(ALPH)])
-    return ''.join(chars)
+    return chars
 
 
 def excerpt_worker(case):
@@ -61,12 +71,17 @@ def excerpt_worker(case):
         # the previous text is released before the next one is built: a later text of the same length (the
         # sub-cases are ordered by length) tends to live at the same address but has another line layout -
         # positions must not depend on what was parsed before
+        # (the characters are prepared first, so that nothing is allocated between releasing the old text and
+        # creating the new one; and every sub-case ends by parsing its plain text once more, so that the plain text
+        # is what each module saw last)
+        chars = make_chars(sc['P'], sc['L'], sc['last'])
         del text
-        text = make_text(sc['P'], sc['L'], sc['last'])
+        text = ''.join(chars)
+        del chars
         res = {}
         runs = [('ParseError', g_err, text), ('PartialParseError', g_part, text), ('bytes', g_bytes, text.encode('ascii'))]
         if (sc['L'] * 7 + sc['col']) % 5 == 0:
-            for vk in ('exotic', 'blanks', 'bom'):
+            for vk in ('exotic', 'blanks', 'bom', 'tab'):
                 vt = variant_text(text, sc, vk)
                 if vt is not None:
                     runs.append(('ParseError/' + vk, g_err, vt))
@@ -85,6 +100,13 @@ def excerpt_worker(case):
                 res[kind] = ['ParseError', p.index, p.line, p.column, str(e)]
             except BaseException as e:  # noqa
                 res[kind] = ['exc', type(e).__name__, str(e)[:200]]
+        if len(runs) > 3:
+            for g in (g_err, g_part):
+                try:
+                    g.parse(text)
+                except BaseException:  # noqa
+                    pass
+        del runs
         out.append(res)
     return {'id': case['id'], 'desc': None, 'build': ['ok'], 'obs': out}
 
